@@ -126,6 +126,17 @@ def run(ctx) -> None:
     for n, fam, values, exact in boundcore.pick_cases(ctx, ns, gen.SA_FAMILIES):
         if ctx.out_of_time(1.0):
             break
+        if rng.random() < 0.05:
+            # a failing computation (singletons unknown: outside the computers' domain) survived by the caller must not
+            # influence the legal ones that follow in this process
+            for comp in sut.SA_COMPUTERS:
+                g = sut.new_game(n, comp)
+                try:
+                    sut.set_knowledge(g, values, [0, (1 << n) - 1] + rng.sample(gen.explorable(n), min(2, len(gen.explorable(n)))))
+                    g.compute_bounds()
+                except Exception:
+                    pass
+                ctx.count("poison_calls")
         for _ in range(3):
             K = gen.random_knowledge_set(rng, n)
             kind = rng.choice(["fresh", "walk", "walk", "dirty"])
